@@ -244,8 +244,10 @@ func (h *harness) project(o *outcome) []string {
 	}
 	// chain states are named by their height on the host's chain: the host wallet's
 	// tip (funding basis) and the chain manager's tip
-	env := fmt.Sprintf("(mk_env %s %s true %s %s true %s %s %s %d %d)",
-		coqBool(s.Fault != "host-not-accepting"), coqBool(valid), basisTerm(s, o.Log.calls), elemRebase,
+	// the element is missing when the lookup is made to fail or the formation is unconfirmed
+	elemFound := s.Kind == "form" || !(s.Unmined || s.Fault == "elem-lookup-fail")
+	env := fmt.Sprintf("(mk_env %s %s %s %s %s true %s %s %s %d %d)",
+		coqBool(s.Fault != "host-not-accepting"), coqBool(valid), coqBool(elemFound), basisTerm(s, o.Log.calls), elemRebase,
 		coqBool(observedOK(o.Log.calls, "CPoolParents")), coqBool(observedOK(o.Log.calls, "CTxSet")), coqBool(observedOK(o.Log.calls, "CPoolSet")),
 		o.HostWalletTip.Height, o.HostCS.Index.Height)
 
@@ -369,12 +371,16 @@ func (h *harness) project(o *outcome) []string {
 			viewFinal(o.M.dlvR3).Basis.Height, len(set), coqBool(shape), ct, T, csigT, rsigT, strings.Join(rin, "; "), strings.Join(hin, "; "))
 	}
 	renterWallet := walletTerm(renterAv, 1000, rfund, false)
-	cases = append(cases, fmt.Sprintf("RenterCase %d %s %s %s %s %s %s %s (%d)%%Z",
-		k, renv, renterWallet, T, rm2, rm4, coqBool(o.RenterErr == nil), callsTerm(o.Signer.calls), rdlock))
+	pl := o.M.plan
+	paired := pl.T1 == "" && pl.T2 == "" && pl.T3 == "" && pl.T4 == "" && s.Fault != "req-wrong-renter-key"
+	if !paired { // (the pair case below checks the renter side of an unrewritten exchange)
+		cases = append(cases, fmt.Sprintf("RenterCase %d %s %s %s %s %s %s %s (%d)%%Z",
+			k, renv, renterWallet, T, rm2, rm4, coqBool(o.RenterErr == nil), callsTerm(o.Signer.calls), rdlock))
+	}
 
 	// ---- both, over a stream that is only cut ----
 	p := o.M.plan
-	if p.T1 == "" && p.T2 == "" && p.T3 == "" && p.T4 == "" && s.Fault != "req-wrong-renter-key" {
+	if paired {
 		ch := func(i int) string {
 			if p.Cut == i {
 				return "Cut"
